@@ -163,6 +163,96 @@ def nulltable_bottom_up_struct(P, R, rule, impl, wrapper, ret_adt, flag):
         R.check(rule, key, ok, "`| null` is added exactly when the flag says nullable", "%s does not add `| null` exactly when nullable" % wrapper.path, loc=wrapper.loc())
 
 
+def nulltable_iterative(P, R, rule, wrapper):
+    """style C: the wrappers of a type are collected and the TypeScript type is rebuilt in a loop with a mutable flag
+    (`nullable`), `| null` being added by an `if flag { Union[.., Null] }` (possibly in a helper).  The invariant that every
+    correct spelling shares — and that the wrong one-pass rewrites break — is that the flag is *reset for each list level*:
+    the arm that builds the array sets the flag back to nullable after wrapping the element under the current flag, the other
+    arm (Non-Null) clears it, it starts out nullable, and the final type is wrapped under it.  Not decided: that the loop visits
+    the wrappers from the inside out (reported as one UNDECIDED instance).  Returns False when the shape is not this one."""
+    wi = inlined(P, wrapper)
+    pv = Prov(wi)
+    tag = short(wrapper.path)
+
+    def locals_of(e, seen=None):
+        """locals an expression is (transitively, through let/param bindings) a copy of"""
+        seen = set() if seen is None else seen
+        st = [e]
+        while st:
+            x = st.pop()
+            if isinstance(x, list):
+                st.extend(x)
+            elif isinstance(x, dict):
+                if x.get("k") == "Path" and "local" in x:
+                    if x["local"] not in seen:
+                        seen.add(x["local"])
+                        st.extend(src for src, _ in pv.src.get(x["local"], []) if src is not None)
+                elif x.get("k") in ("DropTemps", "Use", "AddrOf", "Unary", "Cast"):
+                    st.append(x.get("e"))
+        return seen
+    null_ifs = []
+    for i, (n, _) in enumerate(wi.nodes()):
+        if n.get("k") == "If":
+            then_null = any(norm(x.get("def", "")).endswith("TSType::Null") for x in subnodes(n["then"]) if x.get("k") == "Path")
+            else_null = "else" in n and any(norm(x.get("def", "")).endswith("TSType::Null") for x in subnodes(n["else"]) if x.get("k") == "Path")
+            neg = any(x.get("k") == "Unary" and x.get("op") == "Not" for x in subnodes(n["cond"]))
+            if then_null and not else_null and not neg:
+                null_ifs.append((i, n, locals_of(n["cond"])))
+    flags = [n for n in wi.walk() if n.get("k") == "Let" and n["pat"].get("k") == "Binding" and peel_ty(n["pat"].get("t")) == "bool"
+             and "Mut" in str(n["pat"].get("mode")) and lit_value(n.get("init") or {}) is not None
+             and any(n["pat"]["local"] in ls for _, _, ls in null_ifs)]
+    if len(flags) != 1 or not null_ifs:
+        return False
+    F = flags[0]["pat"]["local"]
+    assigns = [(i, n) for i, (n, _) in enumerate(wi.nodes()) if n.get("k") == "Assign" and n["l"].get("k") == "Path" and n["l"].get("local") == F]
+    in_loop = [(i, n) for i, n in assigns if any(c[0] == "loop" for c in enclosing_contexts(wi, i))]
+    if not in_loop:
+        return False
+    R.check(rule, "nulltable:%s:Named" % tag, lit_value(flags[0]["init"]) is True, "the innermost named type starts nullable",
+            "%s starts the rebuilding with nullable=%s: a named type that is not wrapped in Non-Null loses `| null`" % (wrapper.path, lit_value(flags[0]["init"])), loc=wrapper.loc())
+    # the arms of the loop's dispatch that touch the flag
+    arms = {}
+    for i, n in in_loop:
+        arm = next((c[2] for c in enclosing_contexts(wi, i) if c[0] == "arm" and c[1] is not None and c[1].get("src") == "Normal"), None)
+        if arm is not None:
+            arms.setdefault(id(arm), (arm, []))[1].append(lit_value(n["r"]))
+    # the arm(s) of the same dispatch that build an array, whether or not they touch the flag
+    def builds_array(arm):
+        return any(x.get("k") == "Call" and norm(x.get("callee", "")).endswith("TSType::Array") for x in subnodes(arm["body"]))
+    for m in wi.walk():
+        if m.get("k") == "Match" and m.get("src") == "Normal" and any(id(a) in arms for a in m["arms"]):
+            for arm in m["arms"]:
+                if id(arm) not in arms and builds_array(arm):
+                    arms[id(arm)] = (arm, [])
+    list_arms = [(a, v) for a, v in arms.values() if builds_array(a)]
+    other_arms = [(a, v) for a, v in arms.values() if not builds_array(a)]
+    if not list_arms:
+        R.undecided(rule, "nulltable:%s:list-element" % tag, "no arm of the rebuilding loop builds a TSType::Array", loc=wrapper.loc())
+    for a, vals in list_arms:
+        R.check(rule, "nulltable:%s:list-element" % tag, vals == [True],
+                "the flag is reset to nullable after each list level",
+                "%s: the arm that wraps a list level %s: the nullability of the levels outside a list is decided by a flag left over from inside "
+                "it (a Non-Null element makes the list itself lose `| null`, or the list's Non-Null leaks to its elements)"
+                % (wrapper.path, "does not reset the nullability flag" if not vals else "sets the nullability flag to %s" % vals), loc=wrapper.loc())
+        arrays = [x for x in subnodes(a["body"]) if x.get("k") == "Call" and norm(x.get("callee", "")).endswith("TSType::Array")]
+        wrapped = any(F in ls and any(y is n for x in arrays for y in subnodes(x)) for _, n, ls in null_ifs)
+        if wrapped:
+            R.holds(rule, "nulltable:%s:List" % tag, "list elements get `| null` under the flag of their own level", loc=wrapper.loc())
+        else:
+            R.undecided(rule, "nulltable:%s:List" % tag, "how the element of a list level gets its `| null` was not recognised", loc=wrapper.loc())
+    for a, vals in other_arms:
+        R.check(rule, "nulltable:%s:NonNull" % tag, vals and all(v is False for v in vals), "Non-Null clears the flag",
+                "%s: the Non-Null arm sets the nullability flag to %s" % (wrapper.path, vals), loc=wrapper.loc())
+    final = [n for i, n, ls in null_ifs if F in ls and not any(c[0] == "loop" for c in enclosing_contexts(wi, i))]
+    if final:
+        R.holds(rule, "nulltable:%s:wrapper" % tag, "the outermost level gets `| null` under the flag", loc=wrapper.loc())
+    else:
+        R.undecided(rule, "nulltable:%s:wrapper" % tag, "no final `| null` under the flag outside the loop was found", loc=wrapper.loc())
+    R.undecided(rule, "nulltable:%s:order" % tag, "iterative rebuilding: that the loop visits the wrappers from the innermost to the outermost is not "
+                "decided by this rule", loc=wrapper.loc())
+    return True
+
+
 def r09a(P, R):
     from tsrules import nulltable_top_down
     from facts import AnchorMissing
@@ -170,10 +260,22 @@ def r09a(P, R):
     # the helper by role: the other function or associated function of the converter's module that dispatches on the GraphQL `Type`
     helpers = [f for f in P.fns.values() if f.path.startswith(PR + "ts_types::type_to_ts_type::") and f.path != wrap.path and f.kind in ("Fn", "AssocFn")
                and "::{closure" not in f.path and not f.derived and matches_on(f, "Type")]
-    if len(helpers) != 1:
+    def users():
+        us = sorted(short(c) for c in P.callers_of(wrap.path) if "::tests" not in c)
+        if len(us) >= 4:
+            R.holds("R09-a", "nulltable-users", "used by %s" % us)
+        else:
+            R.undecided("R09-a", "nulltable-users", "get_ts_type_of_type has fewer direct callers than on the pinned tree (%s): the printers may reach it "
+                        "through a shared helper; which printers share the nullability table is not decided" % us)
+    recursive = [h for h in helpers if h.path in P.callees_of(h)[0] or wrap.path in P.callees_of(h)[0]]
+    if len(recursive) != 1:
+        # no recursive helper: the conversion may be iterative (wrappers collected, type rebuilt in a loop under a flag)
+        if nulltable_iterative(P, R, "R09-a", wrap):
+            users()
+            return
         raise AnchorMissing("nullability helper of get_ts_type_of_type: %s" % [h.path for h in helpers])
-    impl = helpers[0]
-    if (impl.sig_output or "").startswith("("):
+    impl = recursive[0]
+    if (impl.sig_output or "").startswith("(") and "bool" in impl.sig_output:
         # bottom-up: returns (type, nullable)
         nulltable_bottom_up(P, R, "R09-a", impl, wrap, "Type")
     elif any(t == "bool" for t in impl.sig_inputs):
@@ -192,12 +294,7 @@ def r09a(P, R):
         else:
             R.undecided("R09-a", "nulltable:" + short(impl.path), "unrecognised shape of the nullability helper", loc=impl.loc())
     # who uses it: variables, input object fields, object fields, resolver args/results
-    users = sorted(short(c) for c in P.callers_of(wrap.path) if "::tests" not in c)
-    if len(users) >= 4:
-        R.holds("R09-a", "nulltable-users", "used by %s" % users)
-    else:
-        R.undecided("R09-a", "nulltable-users", "get_ts_type_of_type has fewer direct callers than on the pinned tree (%s): the printers may reach it "
-                    "through a shared helper; which printers share the nullability table is not decided" % users)
+    users()
 
 
 def _field_nodes(e):
@@ -259,11 +356,16 @@ def scalar_target_table(P, g):
     config fills per variant (struct literal per arm).  -> (table, number of `match target` tables found)"""
     CFGS = CFG + "scalar_type::"
     LEAF = {CFGS + "SendReceiveScalarTypeConfig": "SendReceive", CFGS + "SeparateScalarTypeConfig": "Separate"}
-    gi = inlined(P, g)
+    # every selector of the module is read (get_type, a selector on the four-slot view, ..): they must all give the same table
+    mods = [inlined(P, f) for f in P.fns.values() if f.path.startswith(CFGS) and not f.derived and "::tests" not in f.path
+            and f.kind in ("Fn", "AssocFn") and f.path != g.path]
+    mods.insert(0, inlined(P, g))
     # view structs: struct literals built in an arm of a match over ScalarTypeConfig -> {(view adt, view field): {variant: leaf fields}}
     view = {}
-    for i, (n, _) in enumerate(gi.nodes()):
-        if n.get("k") == "Struct" and "rest" not in n and norm(n.get("adt", "")) not in LEAF:
+    for gi in mods:
+        for i, (n, _) in enumerate(gi.nodes()):
+            if not (n.get("k") == "Struct" and "rest" not in n and norm(n.get("adt", "")) not in LEAF):
+                continue
             variant = None
             for c in enclosing_contexts(gi, i):
                 if c[0] == "arm" and c[1] is not None and peel_ty(c[1]["scrut"].get("t")).split("<")[0].endswith("::ScalarTypeConfig"):
@@ -277,46 +379,46 @@ def scalar_target_table(P, g):
                 view.setdefault((norm(n["adt"]), fld["name"]), {}).setdefault(variant, set()).update(x[1] for x in leaves if x[0] == variant)
     table, found = {}, 0
     ALL = ("ResolverInput", "ResolverOutput", "OperationInput", "OperationOutput")
-    # one flat `match (config, target)`: each arm names the target(s) in its tuple pattern and projects a field of the payload
-    for m in gi.walk():
-        if m.get("k") != "Match" or m.get("src") != "Normal" or m["scrut"].get("k") != "Tup":
-            continue
-        it = [j for j, e in enumerate(m["scrut"]["es"]) if peel_ty(e.get("t")).endswith("::TypeTarget")]
-        if len(it) != 1:
-            continue
-        hit = False
-        for arm in m["arms"]:
-            pat = arm["pat"]
-            while pat.get("k") in ("Ref", "Deref", "Box"):
-                pat = pat["p"]
-            if pat.get("k") != "Tuple" or len(pat.get("ps", [])) != len(m["scrut"]["es"]) or "guard" in arm:
+    seen_matches = set()
+    for gi in mods:
+        for m in gi.walk():
+            if m.get("k") != "Match" or m.get("src") != "Normal":
                 continue
-            tv, catch = arm_variants({"arms": [{"pat": pat["ps"][it[0]]}]})
-            targets = ALL if catch else sorted(tv)
-            for x in _field_nodes(arm["body"]):
-                if x[0] in LEAF:
-                    for t in targets:
-                        table.setdefault((LEAF[x[0]], t), set()).add(x[1])
-                    hit = True
-        found += 1 if hit else 0
-    for i, (m, _) in enumerate(gi.nodes()):
-        if m.get("k") != "Match" or m.get("src") != "Normal" or not peel_ty(m["scrut"].get("t")).endswith("::TypeTarget"):
-            continue
-        tab = variant_table(m)
-        hit = False
-        for target, arm in tab.items():
-            if target == "_":
-                continue
-            # the fields the arm itself projects (not what the projected struct was built from)
-            for x in _field_nodes(arm["body"]):
-                if x[0] in LEAF:
-                    table.setdefault((LEAF[x[0]], target), set()).add(x[1])
-                    hit = True
-                elif x in view:
-                    for variant, leaves in view[x].items():
-                        table.setdefault((variant, target), set()).update(leaves)
-                    hit = True
-        found += 1 if hit else 0
+            mk = (m.get("s", {}).get("lo") if isinstance(m.get("s"), dict) else None, str(m.get("s")))
+            hit = False
+            if m["scrut"].get("k") == "Tup":
+                # one flat `match (config, target)`: each arm names the target(s) in its tuple pattern and projects a field of the payload
+                it = [j for j, e in enumerate(m["scrut"]["es"]) if peel_ty(e.get("t")).endswith("::TypeTarget")]
+                if len(it) != 1:
+                    continue
+                for arm in m["arms"]:
+                    pat = arm["pat"]
+                    while pat.get("k") in ("Ref", "Deref", "Box"):
+                        pat = pat["p"]
+                    if pat.get("k") != "Tuple" or len(pat.get("ps", [])) != len(m["scrut"]["es"]) or "guard" in arm:
+                        continue
+                    tv, catch = arm_variants({"arms": [{"pat": pat["ps"][it[0]]}]})
+                    for x in _field_nodes(arm["body"]):
+                        if x[0] in LEAF:
+                            for t in (ALL if catch else sorted(tv)):
+                                table.setdefault((LEAF[x[0]], t), set()).add(x[1])
+                            hit = True
+            elif peel_ty(m["scrut"].get("t")).endswith("::TypeTarget"):
+                for target, arm in variant_table(m).items():
+                    if target == "_":
+                        continue
+                    # the fields the arm itself projects (not what the projected struct was built from)
+                    for x in _field_nodes(arm["body"]):
+                        if x[0] in LEAF:
+                            table.setdefault((LEAF[x[0]], target), set()).add(x[1])
+                            hit = True
+                        elif x in view:
+                            for variant, leaves in view[x].items():
+                                table.setdefault((variant, target), set()).update(leaves)
+                            hit = True
+            if hit and mk not in seen_matches:
+                seen_matches.add(mk)
+                found += 1
     return table, found
 
 
@@ -340,7 +442,11 @@ def r09b(P, R):
             if "readonly" in flds:
                 ro = lit_value(flds["readonly"])
                 if ro is None:
-                    R.undecided("R09-b", "variable-readonly", "`readonly` of a Variables property is not a literal", loc=f.loc())
+                    opts = sorted({x[2] for x in pv.deep_atoms(flds["readonly"]) if x[0] == "field" and x[1] == OPT})
+                    if opts:
+                        R.holds("R09-b", "variable-readonly", "readonly as the printer option `%s` says (configurable)" % "`, `".join(opts), loc=f.loc())
+                    else:
+                        R.undecided("R09-b", "variable-readonly", "`readonly` of a Variables property is neither a literal nor a printer option", loc=f.loc())
                 else:
                     R.check("R09-b", "variable-readonly", ro is True, "readonly", "variables are not readonly", loc=f.loc())
 
@@ -349,10 +455,16 @@ def r09b(P, R):
         require_fields(P, (PR + "schema_type_printer::context::SchemaTypePrinterContext", "type_target"))
         s = inl(P, P.fn("<" + A + "type_system::ScalarTypeDefinition as " + PR + "schema_type_printer::type_printer::TypePrinter>::print_type"))
         pvs = Prov(s)
-        gets = [c for c in s.walk() if c.get("k") == "MethodCall" and (call_name(c) or "").endswith("ScalarTypeConfig::get_type")]
+        # the selector by role: a function of the config crate's scalar_type module that is handed a TypeTarget
+        gets = []
+        for c in s.walk():
+            if c.get("k") in ("MethodCall", "Call") and (call_name(c) or "").startswith(CFG + "scalar_type::"):
+                targs = [a for a in c["args"] if peel_ty(a.get("t")).endswith("::TypeTarget")]
+                if targs:
+                    gets.append((c, targs[0]))
         R.floor("R09-b", "scalar get_type calls", len(gets), 1)
-        for c in gets:
-            ok = has_field(pvs.deep_atoms(c["args"][0]), PR + "schema_type_printer::context::SchemaTypePrinterContext", "type_target")
+        for c, targ in gets:
+            ok = has_field(pvs.deep_atoms(targ), PR + "schema_type_printer::context::SchemaTypePrinterContext", "type_target")
             R.check("R09-b", "scalar-target", ok, "scalar alias uses get_type(context.type_target)",
                     "scalar declarations take their TypeScript type for a fixed target instead of the namespace being printed", loc=s.loc())
 
@@ -623,7 +735,12 @@ def r09d(P, R):
                 continue
             exp = wiring.get(fld)
             if exp is None:
-                R.undecided("R09-d", key, "option field `%s` has no entry in the wiring table" % fld, loc=fc.loc())
+                # a new option (feature addition) is correct when it is wired to a config key of its own
+                got = {g for g in w.get(fld, set()) if g[0] != "<assigned>"}
+                if got and not (got & designated):
+                    R.holds("R09-d", key, "new option `%s` <- new config key(s) %s" % (fld, sorted(got)), loc=fc.loc())
+                else:
+                    R.undecided("R09-d", key, "option field `%s` has no entry in the wiring table and is wired to %s" % (fld, sorted(got) or "no config key"), loc=fc.loc())
                 continue
             try:
                 require_fields(P, (CFG + "config::" + exp[0], exp[1]))
